@@ -173,4 +173,25 @@ MUTANTS = [
     dict(p="C06", id="stream-no-recompress", file="versatiles_container/src/container/converter.rs",
          old="			stream = tile_recompressor.process_stream(stream);", new="			let _ = tile_recompressor;",
          why="(C04) stream path skips recompression", checks=["C04"]),
+    # ---------------------------------------------------------------- C07
+    dict(p="C07", id="guard-allows-parentdir", file="versatiles/src/tools/server/sources/static_source_folder.rs",
+         old="			.any(|c| !matches!(c, Component::Normal(_) | Component::CurDir))", new="			.any(|c| !matches!(c, Component::Normal(_) | Component::CurDir | Component::ParentDir))",
+         why="`..` components accepted again (lexical starts_with passes)"),
+    dict(p="C07", id="guard-result-ignored", file="versatiles/src/tools/server/sources/static_source_folder.rs",
+         old="""		{
+			return None;
+		}
+
+		// If the path is a directory, append 'index.html'""", new="""		{
+			log::warn!("suspicious path");
+		}
+
+		// If the path is a directory, append 'index.html'""",
+         why="guard only logs"),
+    dict(p="C07", id="guard-after-open", file="versatiles/src/tools/server/sources/static_source_folder.rs",
+         old="		let mut local_path = url.as_path(&self.folder);\n", new="		let mut local_path = url.as_path(&self.folder);\n		let probe = File::open(&local_path).is_ok();\n		log::trace!(\"exists: {probe}\");\n",
+         why="file outside the root is opened (existence oracle) before the guard; content is not returned -> control: property only speaks of returned content", control=True),
+    dict(p="C07", id="as-path-absolute", file="versatiles/src/tools/server/utils/url.rs",
+         old="		base.join(&self.str[1..])", new="		base.join(&self.str)",
+         why="joining an absolute path replaces the base: /etc/passwd is served... (guard strip_prefix fails -> None) — guard still catches it: control", control=True),
 ]
